@@ -90,7 +90,7 @@ func (r *refCipher) x(b []byte) []byte {
 }
 
 func be16(n int) []byte { b := make([]byte, 2); binary.BigEndian.PutUint16(b, uint16(n)); return b }
-func be32(n uint32) []byte {
+func mseBe32(n uint32) []byte {
 	b := make([]byte, 4)
 	binary.BigEndian.PutUint32(b, n)
 	return b
@@ -102,7 +102,7 @@ func refStep3(s, skey []byte, vcBytes []byte, provide uint32, padC int, lenIAFie
 	w := newRefCipher(true, s, skey)
 	var plain []byte
 	plain = append(plain, vcBytes...)
-	plain = append(plain, be32(provide)...)
+	plain = append(plain, mseBe32(provide)...)
 	plain = append(plain, be16(padC)...)
 	plain = append(plain, make([]byte, padC)...)
 	plain = append(plain, be16(lenIAField)...)
@@ -120,7 +120,7 @@ func refStep4(s, skey []byte, vcBytes []byte, selected uint32, padDField int, pa
 	w := newRefCipher(false, s, skey)
 	var plain []byte
 	plain = append(plain, vcBytes...)
-	plain = append(plain, be32(selected)...)
+	plain = append(plain, mseBe32(selected)...)
 	plain = append(plain, be16(padDField)...)
 	plain = append(plain, make([]byte, padD)...)
 	out := w.x(plain)
